@@ -22,7 +22,7 @@ def run(tier, seed):
                 'not decided: that the reported eigenvalues are the finite generalised eigenvalues when zero time constants are '
                 'present (EIG._reorder is outside the subset; bounded stand-in + known finding F4)')
     items = [(E.store_stats('C08'), None, E.replay_store_stats), (E.find_zero_states('C08'),), (E.reduce_('C08'),), (E.calc_pfactor('C08'), None, E.replay_calc_pfactor),
-             (E.pre_check('C08'), E.WIT_F16, E.replay_pre_check), (E.eig_run('C08'),), (E.calc_as('C08'), None, E.replay_calc_as)]
+             (E.pre_check('C08'), E.WIT_F16, E.replay_pre_check), (E.eig_run('C08'),), (E.calc_as('C08'), None, E.replay_calc_as), (E.sweep_rounds('C08'), None, E.replay_sweep)]
     # the time constants the state matrix is built from follow parameter changes made after initialisation (Model.set -> dae.Tf)
     from contracts import fn_pu
     items.append((fn_pu.model_set('C08', 'v'), None, fn_pu.replay_model_set))
@@ -47,6 +47,13 @@ def run(tier, seed):
                              'cases': nr, 'counted_as_proved': False})
         if badr:
             pack.violation(rname, {'bounded': True, 'inputs': badr, 'native_cmd': 'contracts/bounded_eig_ref.py'})
+    sname = 'C08/andes/routines/eig.py:EIG.sweep/bounded:every-round-reports-the-spectrum-of-the-system-with-that-value'
+    r = native_guard(pack, sname, E.replay_sweep)
+    if r is not None:
+        pack.bounded.append({'function': 'EIG.sweep (end to end)', 'kind': 'bounded native: kundur_full without events; GENROU.M x (1, 2, 4) against fresh systems, EXDC2.KA x (2.5, 10) '
+                                                                       'against the state matrix rebuilt from freshly evaluated Jacobians', 'rounds': r.get('tried', 0), 'counted_as_proved': False})
+        if r.get('confirmed'):
+            pack.violation(sname, {'bounded': True, 'inputs': r.get('inputs'), 'observed': r.get('observed'), 'native_cmd': r.get('native_cmd')})
     return pack.finish()
 
 
